@@ -568,6 +568,7 @@ def fam_meta(seed, n, dirs=("fwd", "rev"), gated=True):
 
 GATES = [
     "cli.alloc", "cli.new.sent", "cli.watch.fired", "cli.credit", "cli.close.teardown", "cli.hdr.accept",
+    "cli.frame.dispatch", "srv.frame.dispatch",
     "cli.cancel.finished", "cli.cancel.rcvcancelled", "cli.cancel.emit",
     "cli.finish.cas", "cli.finish.removed", "cli.finish.rcvclosed",
     "srv.reject.emit", "srv.create.checked", "srv.credit", "srv.watch.fired", "srv.watch.cancelled",
@@ -675,6 +676,14 @@ C2S_DEVIATIONS = [
     ("new-malformed-method", lambda: [new_frame(5, 7, method="nomethod")]),
     ("new-slash-method", lambda: [new_frame(5, 7, method="/")]),
     ("new-bad-revision", lambda: [new_frame(5, 7, rev=7)]),
+    # request metadata a conforming client of THIS library never sends: grpc-timeout values of every malformed kind
+    ("new-timeout-empty", lambda: [new_frame(5, 7, shape="unary", md={"grpc-timeout": [""]})]),
+    ("new-timeout-unit-only", lambda: [new_frame(5, 7, shape="unary", md={"grpc-timeout": ["S"]})]),
+    ("new-timeout-no-unit", lambda: [new_frame(5, 7, shape="unary", md={"grpc-timeout": ["15"]})]),
+    ("new-timeout-negative", lambda: [new_frame(5, 7, shape="unary", md={"grpc-timeout": ["-1S"]})]),
+    ("new-timeout-long", lambda: [new_frame(5, 7, shape="unary", md={"grpc-timeout": ["123456789012345678901234567890H"]})]),
+    ("new-timeout-many", lambda: [new_frame(5, 7, shape="unary", md={"grpc-timeout": ["", "x", "5S", ""]})]),
+    ("new-empty-md-key", lambda: [new_frame(5, 7, shape="unary", md={"": ["v"], "k": []})]),
     ("new-window-zero", lambda: [new_frame(5, 7, shape="unary", win=0)]),
     ("msg-unknown-sid", lambda: data_frames(99, 0, "c", 0, 8)),
     ("msg-sid0", lambda: data_frames(0, 0, "c", 0, 8)),
@@ -682,6 +691,8 @@ C2S_DEVIATIONS = [
     ("more-without-envelope", lambda: [raw("more", 1, len=4)]),
     ("envelope-then-envelope", lambda: [raw("msg", 1, size=20, len=5), raw("msg", 1, size=6, len=6)]),
     ("len-gt-size", lambda: [raw("msg", 1, size=4, len=9)]),
+    ("more-overshoot", lambda: [raw("msg", 1, size=8, len=4), raw("more", 1, len=8)]),
+    ("more-overshoot-then-more", lambda: [raw("msg", 1, size=8, len=4), raw("more", 1, len=8)] + [raw("more", 1, len=100) for _ in range(6)]),
     ("overrun-by-one", lambda: [raw("msg", 1, size=W + 1, len=CH)] + [raw("more", 1, len=CH) for _ in range(3)] + [raw("more", 1, len=1)]),
     ("overrun-big-frame", lambda: [raw("msg", 1, size=3 * W, len=W + 1)]),
     ("overrun-many-windows", lambda: [raw("msg", 1, size=4 * W, len=CH)] + [raw("more", 1, len=CH) for _ in range(9)]),
@@ -742,6 +753,30 @@ def fam_hostile_srv(seed, n=0, dirs=("fwd", "rev"), modes=("neg", "legacy", "off
                                 "cfg": {"dir": d, "rawCli": mode}, "steps": steps, "rpcs": rpcs,
                                 "policy": {"kind": "eager", "seed": seed, "max": 200},
                                 "meta": {"family": "hostile-srv", "deviation": dname}})
+        # revision zero (no windows): the peer keeps sending while the handler has stopped reading, then the handler
+        # returns (or its deadline passes): the serve loop, parked handing over a frame, must be released, the
+        # stream closed and the bystander served
+        for mode in ("legacy", "off"):
+            for ending in ("ret", "ret-err", "deadline"):
+                nf = new_frame(1, 1, shape="cstream", rev=0, md={"grpc-timeout": ["5S"]} if ending == "deadline" else None)
+                frames = [nf, new_frame(2, 2, shape="unary", rev=0)]
+                steps = [{"do": "open"}, {"do": "drain"}]
+                for f in frames:
+                    steps += [copy.deepcopy(f), dl("c2s")]
+                for k in range(5):
+                    for f in data_frames(1, 1, "c", k, 30):
+                        steps += [copy.deepcopy(f), dl("c2s")]
+                steps += [sop(1, "recv")]
+                if ending == "deadline":
+                    steps += [{"do": "advance", "ms": 5001}, sop(1, "recv"), sop(1, "ret", code=4)]
+                else:
+                    steps += [sop(1, "ret", code=0 if ending == "ret" else 13, n=3)]
+                for f in data_frames(2, 2, "c", 0, 9) + [raw("half", 2)]:
+                    steps += [copy.deepcopy(f), dl("c2s")]
+                steps += [sop(2, "recv"), sop(2, "ret", code=0, n=4), {"do": "drain"}]
+                out.append({"name": "hostile-srv-%s-%s-overfeed-%s" % (d, mode, ending), "cfg": {"dir": d, "rawCli": mode}, "steps": steps,
+                            "rpcs": [{"rpc": 1}, {"rpc": 2}], "policy": {"kind": "eager", "seed": seed, "max": 0},
+                            "meta": {"family": "hostile-srv", "deviation": "overfeed-" + ending}})
         # an eager peer: it negotiates but starts sending before it has received the settings frame (held at its
         # emission point): whatever the server answers, settings is still the first frame it sends
         for shape in ("unary", "bidi"):
@@ -847,6 +882,9 @@ S2C_DEVIATIONS = [
     ("more-without-envelope", lambda: [raw("more", 1, len=4)]),
     ("envelope-then-envelope", lambda: [raw("msg", 1, size=20, len=5), raw("msg", 1, size=6, len=6)]),
     ("len-gt-size", lambda: [raw("msg", 1, size=4, len=9)]),
+    # a continuation that jumps past the announced size (the first frame was fine)
+    ("more-overshoot", lambda: [raw("msg", 1, size=8, len=4), raw("more", 1, len=8)]),
+    ("more-overshoot-then-more", lambda: [raw("msg", 1, size=8, len=4), raw("more", 1, len=8)] + [raw("more", 1, len=100) for _ in range(6)]),
     ("overrun-by-one", lambda: [raw("msg", 1, size=W + 1, len=CH)] + [raw("more", 1, len=CH) for _ in range(3)] + [raw("more", 1, len=1)]),
     ("overrun-big-frame", lambda: [raw("msg", 1, size=3 * W, len=W + 1)]),
     ("overrun-many-windows", lambda: [raw("msg", 1, size=4 * W, len=CH)] + [raw("more", 1, len=CH) for _ in range(9)]),
